@@ -1,7 +1,20 @@
-"""C01 check configuration (data only)."""
+"""C01 check configuration."""
+import os
+import subprocess
+import sys
+
 from propbase import KERNEL, HARNESS
 
+
+def _regen(ctx):
+    """TERMINAL_FRAMES_DROP and the drop comparison of run_render -> Gen/C01Const.v"""
+    env = dict(ctx["env"], VERIF_REPO=ctx["repo"])
+    gen = os.path.join(ctx["root"], "translate", "c01const.py")
+    p = subprocess.run([sys.executable, gen], env=env, stdout=subprocess.PIPE, stderr=subprocess.STDOUT, text=True, timeout=300)
+    return p.returncode, p.stdout.strip()
+
 PROP = {'gen': [],
+ 'pre_coq': [_regen],
  'coq_props': ['theories/Props/C01.vo'],
  'coq_corr': ['theories/Corr/C01Corr.vo'],
  'props_file': 'theories/Props/C01.v',
@@ -17,7 +30,10 @@ PROP = {'gen': [],
                'images and glyphs (including cells behind wide characters and under images), after every frame the terminal displays '
                'exactly the denotation of the drawn surface = what a naive painter leaves on a blank terminal, and no command is a '
                'protocol error (C01_history, C01_history_final, C01_scratch); after new(clear=true) / clear() the next frame repaints '
-               'every cell on an arbitrary previous screen (C01_forced, C01_clear_then_frame); show is characterised cell by cell '
+               'every cell on an arbitrary previous screen (C01_forced, C01_clear_then_frame); the render loop of run_render with its '
+               'output queue and frame dropping, end to end: whatever the tty takes, whatever frames_pending() answers and whichever prefix '
+               'of the queue survives a drop, every delivered frame is displayed right (C01_render_loop; TERMINAL_FRAMES_DROP '
+               'regenerated from the source), except in the known class DroppedImageErase; show is characterised cell by cell '
                '(C01_show_is_denotation). Surfaces in which an image shares a cell with another image or with a wide character are '
                'the recorded known classes OverlapImages / OverlapWideImage (one _refuted witness each). The model is tied to the '
                'code by a differential run on command lists, and the property predicate is evaluated on the implementation\'s own '
@@ -28,7 +44,10 @@ PROP = {'gen': [],
                'the correspondence run; oracle_ok (space is one column wide, a default blank is an untouched cell, erasable faces erase '
                'like spaces); six fix: commits in the crate (marks reset after use, wide-character extent, Option-tracked face/cursor, '
                'clear() keeps the drawn front buffer, no EraseChars for faces with underline/strike/reverse, hidden wide characters '
-               'do not own the column behind them). No axioms (Print Assumptions: closed for all theorems).',
+               'do not own the column behind them). Render/Loop.v takes from Props/C16.v (C16_frames, C16_frames_flush_delimited, '
+               'C16_render_loop_schema) the interface of the output queue: chunks delimited by flush/poll, delivered in order and '
+               'whole, frames_drop discards only whole chunks never seen by the tty (modelled: a drop keeps a prefix of the queue). '
+               'translate/c01const.py regenerates TERMINAL_FRAMES_DROP and checks the shape of the comparison. No axioms (Print Assumptions: closed for all theorems).',
  'technique': 'Coq proof (invariant over histories; last-writer-wins fold invariant for pass 1; order-free "a correct cell stays correct" '
               'argument for passes 2 and 3) + model/implementation correspondence on command lists + reference-terminal predicate on the '
               'implementation\'s commands',
@@ -51,4 +70,7 @@ PROP = {'gen': [],
                  'treats as erasable erase like printed spaces. Characters of width 0 and wide characters in the last column are '
                  'outside the domain',
                  'surfaces in which an image/glyph rectangle shares a cell with another image or with a wide character are the known '
-                 'classes OverlapImages / OverlapWideImage']}
+                 'classes OverlapImages / OverlapWideImage',
+                 'render loop: the queue interface proved in C16 (whole chunks, in order, drops keep a prefix); sessions in which a '
+                 'dropped chunk carried the ImageErase of a delivered image are the known class DroppedImageErase; a resize while '
+                 'frames are pending is outside the sessions']}
